@@ -47,6 +47,9 @@ def cases(tier, seed):
                         big=(tier == "thorough" and i % 10 == 0)))
     for rel in STOCK:
         out.append(dict(id="stock:" + rel, kind="stock", path=rel))
+    # histories on ONE System object: switch branches / loads, re-run, switch back, re-run ...
+    for i in range(16 if tier == "quick" else 160):
+        out.append(dict(id="seq%04d" % i, kind="seq", index=i))
     return out
 
 
@@ -305,10 +308,124 @@ def run_stock(spec, res):
                       max_balance_ratio=res.obs.get("max_balance_ratio"))
 
 
+SEQ_STOCK = ["ieee14/ieee14.raw", "ieee14/ieee14.json", "ieee39/ieee39.xlsx", "kundur/kundur_full.xlsx", "wscc9/wscc9.raw",
+             "matpower/case14.m", "npcc/npcc.xlsx"]
+
+
+def run_seq(spec, res):
+    """Repeated PFlow.run() on one System while devices are switched: every reported convergence must satisfy the
+    balance of the data *as it is at that moment* (a bus isolated earlier and reconnected since is a non-islanded bus)."""
+    from vf import au
+    from vf.gen import network as gn
+    from vf.oracle import powerflow as opf
+    seed = spec.get("seed", 0)
+    rng = rng_for(seed, PROPERTY, 7001, spec["index"])
+    with au.Scratch("c01s") as sd:
+        flat = bool(rng.integers(0, 2))
+        if rng.random() < 0.5:
+            net = None
+            for attempt in range(8):
+                cand = gn.gen_network(rng, hard=False)
+                ref = opf.solve(gn.to_oracle(cand), tol=1e-11, max_iter=10)
+                if ref["converged"]:
+                    net = cand
+                    break
+            if net is None:
+                res.inconc("no well-posed network in 8 draws")
+                return
+            rc = au.write_rc(os.path.join(sd, "s.rc"), {"System": {"mva": net["mva"]}, "PFlow": {"report": 0}})
+            ss = gn.build_system(net, config_path=rc)
+            base = "gen"
+        else:
+            base = SEQ_STOCK[int(rng.integers(0, len(SEQ_STOCK)))]
+            ss = au.load(base)
+        if flat:
+            ss.Bus.config.flat_start = 1
+        res.sig = "seq:%d:%d" % (seed, spec["index"])
+        L = ss.Line
+        nline = L.n
+        bus_of = {b: i for i, b in enumerate(ss.Bus.idx.v)}
+        slack_buses = [bus_of[b] for b, u in zip(ss.Slack.bus.v, ss.Slack.u.v) if u]
+        u_now = np.array(L.u.v, dtype=float).copy()
+
+        def acceptable(u):
+            # in-service branches keep every non-isolated bus in one component that holds a slack bus
+            uf = au.UnionFind(ss.Bus.n)
+            deg = np.zeros(ss.Bus.n)
+            for k in range(nline):
+                if u[k]:
+                    a, b = bus_of[L.bus1.v[k]], bus_of[L.bus2.v[k]]
+                    uf.union(a, b)
+                    deg[a] += 1
+                    deg[b] += 1
+            roots = set(uf.find(i) for i in range(ss.Bus.n) if deg[i] > 0)
+            return len(roots) == 1 and any(deg[s] > 0 and uf.find(s) in roots for s in slack_buses)
+
+        tol = float(ss.PFlow.config.tol)
+        nstep = int(rng.integers(3, 7))
+        switched = []
+        for step in range(nstep):
+            ops = []
+            kind = ["isolate_bus", "restore", "line_out", "line_in", "load", "none"][int(rng.integers(0, 6))] if step else "none"
+            if step == 1 and rng.random() < 0.5:
+                kind = "isolate_bus"
+            if step == 2 and switched and rng.random() < 0.6:
+                kind = "restore"
+            u_try = u_now.copy()
+            if kind == "isolate_bus":
+                b = int(rng.integers(0, ss.Bus.n))
+                ks = [k for k in range(nline) if u_now[k] and b in (bus_of[L.bus1.v[k]], bus_of[L.bus2.v[k]])]
+                for k in ks:
+                    u_try[k] = 0
+                ops = [(k, 0) for k in ks]
+            elif kind == "restore":
+                ops = [(k, 1) for k in switched]
+                for k in switched:
+                    u_try[k] = 1
+            elif kind == "line_out":
+                k = int(rng.integers(0, nline))
+                if u_now[k]:
+                    u_try[k] = 0
+                    ops = [(k, 0)]
+            elif kind == "line_in" and switched:
+                k = switched[int(rng.integers(0, len(switched)))]
+                u_try[k] = 1
+                ops = [(k, 1)]
+            if ops and not acceptable(u_try):
+                ops = []
+                res.count("seq_ops_skipped_would_split_network")
+            for k, v in ops:
+                L.alter("u", L.idx.v[k], v)
+                u_now[k] = v
+                if v == 0:
+                    switched.append(k)
+                elif k in switched:
+                    switched.remove(k)
+            if kind == "load" and ss.PQ.n:
+                j = int(rng.integers(0, ss.PQ.n))
+                ss.PQ.alter("p0", ss.PQ.idx.v[j], float(ss.PQ.p0.vin[j]) * float(rng.uniform(0.8, 1.1)))
+                res.count("seq_load_changes")
+            res.count("seq_steps")
+            res.count("seq_branch_switchings", len(ops))
+            ok, err = run_pf(ss)
+            res.count("pf_runs")
+            if not ok:
+                res.count("seq_nonconverged")
+                continue
+            res.count("pf_converged")
+            tag = "seq %s step %d (%s; %d branches out)" % (base, step, kind, int(nline - u_now.sum()))
+            if check_solution(res, ss, tag, tol) is not None and any(v == 1 for _, v in ops):
+                res.count("seq_balance_after_reconnection")
+    res.nontrivial = res.obs.get("buses_balanced", 0) >= 3
+    res.sample = dict(base=base, steps=res.obs.get("seq_steps"), switchings=res.obs.get("seq_branch_switchings"))
+
+
 def run_case(spec):
     res = Result(spec)
     if spec["kind"] == "gen":
         run_gen(spec, res)
+    elif spec["kind"] == "seq":
+        run_seq(spec, res)
     else:
         run_stock(spec, res)
     return res
